@@ -37,8 +37,9 @@ CLAIMS = {
              "core's from_str_radix algorithm transcribed on miniature widths accepts exactly the plain in-range literals with their exact value, and "
              "that the digit-sequence arithmetic used for 64-bit bounds equals integer arithmetic. On the real code ~12k messages (bounds of every "
              "integer type in four radices, 13 decimal spellings, all short literals, every data kind into every type, the 0..12 x 0..10 parameter-count "
-             "matrix, an unfit literal at every position) are run through macro-generated handlers and each recorded outcome is validated by TraceScpi; "
-             "float literals are additionally checked bit-exactly.",
+             "matrix, an unfit literal at every position, numeric fields of up to 70 digits, literals next to float midpoints) are run through "
+             "macro-generated handlers, and ~9k conversions through TryInto called directly (by value and by reference); each recorded outcome is validated "
+             "by TraceScpi; float literals are additionally checked bit-exactly.",
         design_ref="DESIGN.md section 4 C03",
         note=TRUST + " Binary floating point is outside TLC's reach: for f32/f64 the TLA+ spec decides kind, arity and error class, while the bit "
              "pattern is decided by exact rational arithmetic in bin/vlib/floats.py (independent of Rust's dec2flt).",
@@ -59,7 +60,8 @@ CLAIMS = {
     "C05": dict(
         category="model_checking",
         text="MCScpiProcess checks the offset invariant 0<=proc<=rd<=rend<=N and that a read is always offered space, for every chunking and "
-             "content within the bounds. Every byte string over the 18-symbol class alphabet up to L, seeded message sequences and seeded "
+             "content within the bounds, and - under weak fairness of process's own steps - the liveness property Progress (process always comes back "
+             "to a read: no loop without consuming input; a spinning mutant is the failing negative control). Every byte string over the 18-symbol class alphabet up to L, seeded message sequences and seeded "
              "random/mutated inputs over all byte values are run through run() with 7..23 writers (capacities 0..64, std, pass-through) and "
              "through process::<N> for N in 1..32,47,64,128,1024 under whole/byte-wise/seeded schedules; TraceScpi's monitors reject any "
              "panic, non-suffix remainder, empty read buffer or missing return, a watchdog catches calls that do not return.",
@@ -94,7 +96,8 @@ CLAIMS = {
         category="model_checking",
         text="MCErrorQueue checks the queue as a state machine for K=1..4: bounded, a push with room appends exactly the error, a push on a full "
              "queue replaces exactly the newest entry by -350 (older entries intact), a pop removes exactly the oldest; two mutants (drop oldest, drop "
-             "new silently) are failing negative controls. MCScpiRun checks end to end, for interfaces of capacity K, every grouping of faults, custom "
+             "new silently) are failing negative controls; TLAPS proves the same step properties and the bound for ARBITRARY capacity and error set "
+             "(spec/proofs/ErrorQueueProof.tla, 74 obligations, re-proved on every run). MCScpiRun checks end to end, for interfaces of capacity K, every grouping of faults, custom "
              "errors, NEXT?/COUNt? queries and commands into messages. On the real code every operation sequence of depth D on StaticErrorQueue<K> "
              "directly (count observed after every step, queue drained at the end), seeded sequences incl. K=10, all enumerated histories and seeded "
              "sessions (one buffer, per message, through process) are validated by TraceScpi: NEXT? answers number,\"description\" of the oldest entry "
@@ -121,7 +124,9 @@ CLAIMS = {
              "OnlineIsBatch, IncompleteOnlyInside are checked on every edge. Every string over five alphabets (header classes, decimal, "
              "radix/block, string, parameter count around MAX_ARGS) up to L is printed with the pinned verdict (class, consumed length, "
              "query/terminator flags, tokens, node and parent) from the root and three inner start nodes, and the real parser::parse is "
-             "compared on each (614k cases quick).",
+             "compared on each (614k cases quick, 22.7M thorough). MCScpiParseImpl additionally checks that the implementation-shaped parser "
+             "(ScpiParseImpl, a combinator-by-combinator transcription of parser.rs) returns a verdict the grammar pins on every enumerated string; the "
+             "pre-repair ordered choice is its failing negative control.",
         design_ref="DESIGN.md section 4 C12", note=TRUST,
         technique="TLA+ model checking (TLC) + replay of every TLC-enumerated input with its specified verdict into the real parser"),
     "C13": dict(
